@@ -175,8 +175,9 @@ def space(tier):
                           {"thread": 1, "total": 1} if quick else {"thread": 2, "total": 2}, cap))
             continue
         units.append(({"program": p, "cfg": dict(base, env_kinds=["crash"])}, {"crash": 1, "total": 1}, cap))
+        long_prog = any(t in p["name"] for t in ("every-kind", "oversized", "map2[wfc"))
         units.append(({"program": p, "cfg": dict(base, env_kinds=[], timer_choices=True)},
-                      {"thread": 1, "timer": 1, "total": 1} if quick else {"thread": 2, "timer": 1, "total": 2}, cap))
+                      {"thread": 1, "timer": 1, "total": 1} if (quick or long_prog) else {"thread": 2, "timer": 1, "total": 2}, cap))
         for pol in ("low", "high", "rr"):
             units.append(({"program": p, "cfg": dict(base, env_kinds=["crash"] if not quick else [], policy=pol)},
                           {"crash": 1, "total": 1}, cap))
@@ -206,7 +207,7 @@ def run(ctx):
     cov["distinct_positions"] = len(glob)
     cov["bounds"] = ("22 program shapes (three with nested oversized contexts; three placing every operation kind inside a child context, a parallel branch and a map item) + 2 in which sibling branches issue operations on the enclosing context (shared call counter, line-level preemption in threading.py) (nesting <=3, <=3 branches/items, sibling maps, child-in-branch-in-map, callbacks inside "
                      "branches, max_concurrency, early completion); per shape every single crash point, every schedule with "
-                     "<=1 (quick) / <=2 (thorough) deviations, policies rtb/low/high/rr; the relation position->id is "
+                     "<=1 (quick) / <=2 (thorough, on the 16 short shapes) deviations, policies rtb/low/high/rr; the relation position->id is "
                      "checked within each execution, across all executions of a unit and across all programs")
     cov["explanation"] = "each trace is a complete execution through the production entry point; ids are read from the updates the backend model receives"
     return {"coverage": cov, "violations": viols, "internal": internal,
